@@ -391,7 +391,7 @@ fn explore(ctx: &Ctx) -> Outcome {
     let mut f7: Vec<Case> = Vec::new();
     {
         let tricky = sjis::tricky_strings();
-        let (dl, dn) = ctx.tier.pick((300usize, 300usize), (1300, 1100));
+        let (dl, dn) = ctx.tier.pick((1700usize, 300usize), (4400, 1100));
         for cfg in CFGS {
             for (i, s) in tricky.iter().enumerate() {
                 let other = &tricky[(i + 1) % tricky.len()];
